@@ -71,7 +71,10 @@ class WFQ(Scheduler):
     def put(self, packet: Packet):
         class_id = self.flow2class(packet.flow_id)
         now = self.env.now
-        if len(self.active_set) == 0:
+        if self.total_packets == 0:
+            # nothing waiting or in transmission: a new busy period starts
+            # (the run loop may not have cleared the active set yet when the
+            # packet arrives in the very instant the last transmission ended)
             self.reset_vtime()
         else:
             self.update_vtime()
